@@ -396,7 +396,8 @@ def scan_function(facts, m, label, t0):
 
 
 # ------------------------------------------------------------------------------------------
-def init_instances(c, facts, timeout, t0):
+def init_instances(c, facts, timeout, t0, prefix="C20", clause="init.instances", fields=None):
+    """`fields`: a set that receives the names of all instance fields the constructor stores (any path)."""
     E = c["E"]
     cls = "odata_query.rewrite.AliasRewriter"
     m = facts.classes[cls]["members"]["__init__"]
@@ -405,10 +406,14 @@ def init_instances(c, facts, timeout, t0):
     for cq in (G.LEXER, G.PARSER):
         mem = facts.classes[cq]["members"]
         bad = [x for x in ("__bool__", "__len__") if x in mem]
-        out.append(res(f"C20:{cq}:init.truthy", "init.truthy", not bad, t0,
+        out.append(res(f"{prefix}:{cq}:init.truthy", "init.truthy", not bad, t0,
                        "instances are truthy (no __bool__ / __len__ on the MRO)" if not bad else f"defines {bad}: `if not lexer` may discard a supplied instance"))
 
     def hook(E, path, frame, e, it):
+        if repr(it) != "<call>(getattr(<aliases>(), 'items'))":
+            # only the comprehension over the supplied alias map is modelled (its keys and values are strings)
+            from vc.symexec import Unsupported
+            raise Unsupported(f"dict comprehension over {repr(it)[:80]} in the constructor")
         g = e.generators[0]
         sub = frame.child()
         k, v = z3.String("k"), z3.String("v")
@@ -439,9 +444,11 @@ def init_instances(c, facts, timeout, t0):
                 return E.run_function(path, FuncRef(m, defcls=cls), [self_obj, ExtVal("<aliases>"), lexv, parv], self_val=self_obj)
             rs = explore(E, runner)
             for i, (path, oc) in enumerate(rs):
-                name = f"C20:{cls}.__init__[{case}]:init.instances"
+                name = f"{prefix}:{cls}.__init__[{case}]:{clause}"
+                if fields is not None:
+                    fields.update(holder["self"].attrs)
                 if oc[0] != "return":
-                    out.append({"name": name, "clause": "init.instances", "status": "refuted" if oc[0] == "raise" else "undecided",
+                    out.append({"name": name, "clause": clause, "status": "refuted" if oc[0] == "raise" else "undecided",
                                 "seconds": 0.0, "reason": str(oc)[:200], "source": src_of(m), "path": i,
                                 "solver_output": str(oc)[:200], "witness": {"case": case}})
                     continue
@@ -462,7 +469,7 @@ def init_instances(c, facts, timeout, t0):
                 # a fresh instance is a fresh instance whatever its constructor stores on it
                 got = _re.sub(r"Obj\((ODataLexer|ODataParser), \{[^{}]*(?:\{[^{}]*\}[^{}]*)*\}\)", r"<fresh \1>", repr(rep))
                 ok = got == want and repr(fa) == "<aliases>()"
-                out.append(res(name, "init.instances", ok, t0,
+                out.append(res(name, clause, ok, t0,
                                "replacements = {P(k): P(v)} with P = parse of the " + ("supplied" if parv is not None else "fresh") +
                                " parser over tokenize of the " + ("supplied" if lexv is not None else "fresh") + " lexer" if ok else
                                f"replacements = {got}; expected {want}", {"source": src_of(m), "path": i, "witness": {"case": case}},
